@@ -847,6 +847,25 @@ var c17set = newChk("C17", "set-get",
 			parsed.Labels[i] = edited[i]
 			want = fmt.Sprintf("%q", edited)
 			p.UpdateOption(dhcpv4.OptDomainSearch(parsed))
+		case 31:
+			// the step-by-step route: a search list read from RAW bytes (compressed names, a trailing partial name),
+			// one more name appended to what was read, set again, read again — the same names as setting them in one go
+			name = "DomainSearch"
+			src, _ := dhcpv4.New(dhcpv4.WithGeneric(dhcpv4.OptionDNSDomainSearchList, append([]byte{}, c.Raw...)))
+			parsed := src.DomainSearch()
+			refNames, class, _ := reflabel.Decode(c.Raw)
+			if parsed == nil || class == reflabel.Malformed || !namesEq(parsed.Labels, refNames) || len(c.Strs) == 0 {
+				return nil // C17/accessor-vs-raw and C19 judge the reading itself
+			}
+			for _, nme := range parsed.Labels {
+				if strings.Contains(nme, "..") || strings.HasPrefix(nme, ".") || len(nme) > 250 {
+					return nil // not a name the encoder can be asked to write again
+				}
+			}
+			extra := string(c.Strs[0])
+			parsed.Labels = append(parsed.Labels, extra)
+			want = fmt.Sprintf("%q", append(append([]string{}, refNames...), extra))
+			p.UpdateOption(dhcpv4.OptDomainSearch(parsed))
 		case 29:
 			name, want = "UserClass", fmt.Sprintf("%q", []string{string(c.Str)})
 			// the single-string (non RFC 3004) form; a value that happens to parse as RFC 3004 items is read as items
@@ -930,7 +949,7 @@ func rfc3004(v []byte) ([]string, bool) {
 
 func TestC17_SetGetRapid(t *testing.T) {
 	c17set.rapidCheck(t, rapid.Custom(func(rt *rapid.T) c17Set {
-		c := c17Set{Kind: rapid.IntRange(0, 30).Draw(rt, "kind"), Mapd: rapid.Bool().Draw(rt, "mapped"), U32: rapid.Uint32().Draw(rt, "u32")}
+		c := c17Set{Kind: rapid.IntRange(0, 31).Draw(rt, "kind"), Mapd: rapid.Bool().Draw(rt, "mapped"), U32: rapid.Uint32().Draw(rt, "u32")}
 		n := rapid.IntRange(1, 5).Draw(rt, "n")
 		for i := 0; i < n; i++ {
 			c.IPs = append(c.IPs, rapid.SliceOfN(rapid.Byte(), 4, 4).Draw(rt, "ip"))
@@ -943,7 +962,7 @@ func TestC17_SetGetRapid(t *testing.T) {
 		}
 		c.Str = str
 		switch c.Kind {
-		case 27, 30:
+		case 27, 30, 31:
 			for _, nme := range gen.Names(4).Draw(rt, "names") {
 				c.Strs = append(c.Strs, []byte(nme))
 			}
@@ -952,13 +971,20 @@ func TestC17_SetGetRapid(t *testing.T) {
 			}
 		default:
 			for i := 0; i < n; i++ {
-				c.Strs = append(c.Strs, gen.Fill(rt, rapid.IntRange(1, 255).Draw(rt, "il"), "item"))
+				hi := 255
+				if c.Kind == 28 && rapid.IntRange(0, 3).Draw(rt, "longsub") == 0 {
+					hi = 700 // relay agent sub-option values beyond one length octet (written as several instances)
+				}
+				c.Strs = append(c.Strs, gen.Fill(rt, rapid.IntRange(1, hi).Draw(rt, "il"), "item"))
 			}
 			if c.Kind == 25 && rapid.Bool().Draw(rt, "emptylast") {
 				c.Strs[len(c.Strs)-1] = obs.Hex{}
 			}
 		}
 		c.Raw = rapid.SliceOfN(rapid.Byte(), 0, 40).Draw(rt, "raw")
+		if c.Kind == 31 {
+			c.Raw = gen.LabelWireNoDots(false).Draw(rt, "rawnames")
+		}
 		return c
 	}))
 }
